@@ -18,7 +18,7 @@ Section Wrap.
 Context {T : Type} {N : Num T} {F : NumField T}.
 Add Field Tfield : nf_field.
 Variable flg : nat -> bool * bool.
-Variable bdtf : nat -> bool.
+Variable bdtf : nat -> dtinfo.
 Variable icast : T -> T.
 
 Notation sp := (SLeaf true).
@@ -297,7 +297,7 @@ Section Pow.
 Context {T : Type} {N : Num T} {F : NumField T}.
 Add Field Tfield2 : nf_field.
 Variable flg : nat -> bool * bool.
-Variable bdtf : nat -> bool.
+Variable bdtf : nat -> dtinfo.
 Variable icast : T -> T.
 Notation sp := (SLeaf true).
 
